@@ -149,7 +149,10 @@ type Pool struct {
 	SolverU    map[string]int
 	nonterm    int
 	violations int
-	abort      bool
+	// broken code can make exploration explode: once a violation is known the rest of the plan gets
+	// a grace period and is then abandoned (the check is going to exit 1 anyway)
+	firstViolation time.Time
+	abort          bool
 }
 
 type Worker struct {
@@ -341,6 +344,9 @@ func (w *Worker) reportViolation(e *Exec, label, kind, msg string, m map[string]
 	r.mu.Unlock()
 	w.pool.mu.Lock()
 	w.pool.violations++
+	if w.pool.firstViolation.IsZero() {
+		w.pool.firstViolation = time.Now()
+	}
 	if kind == "nontermination" {
 		w.pool.nonterm++
 	}
@@ -468,6 +474,9 @@ func (w *Worker) runPath(t task) {
 		r.mu.Unlock()
 	}()
 	w.pool.mu.Lock()
+	if !w.pool.firstViolation.IsZero() && time.Since(w.pool.firstViolation) > 90*time.Second {
+		w.pool.abort = true
+	}
 	aborted := w.pool.abort
 	w.pool.mu.Unlock()
 	r.mu.Lock()
